@@ -866,7 +866,7 @@ def pool_contests_post(S, I, variant):
     n = int(variant[0][1:])
     cards = []
     for i in range(n):
-        tp = S.choose(f"tally_pool{i}", ["p1", "p2"])
+        tp = S.choose(f"tally_pool{i}", ["p1", 0])          # (a pool may be labelled 0 or '': a label is a label)
         cards.append(rec_card(S, f"cvr{i}", sym_cvr(I, f"cvr{i}", {"c1": ["A"], "c2": ["A"]}, tally_pool=tp)))
     pc = I.get(MOD, "CVR.pool_contests")
     apc = I.get(MOD, "CVR.add_pool_contests")
@@ -1995,3 +1995,108 @@ def contest_find_sample_size_post(S, I, variant):
                 not pos and kw.get("rate_1") is audit.attrs["error_rate_1"] and kw.get("rate_2") is audit.attrs["error_rate_2"]
                 and kw.get("reps") is audit.attrs["reps"] and kw.get("quantile") is audit.attrs["quantile"] and kw.get("seed") is audit.attrs["sim_seed"]
                 and (kw.get("data") is tokens[j] if with_sample else kw.get("data") is None))
+
+
+# ------------------------------------------------------------------ C02 / C06: the functions that build and configure all assertions of an audit
+
+@script(["C02"], "Assertion.make_all_assertions/post (plurality with k winners, super-majority)", variants=(("plurality",), ("supermajority",)))
+def make_all_assertions_post(S, I, variant):
+    """one assertion per (reported winner, reported loser) pair -- losers are exactly the candidates that are not winners -- each
+    with the winner-versus-loser assorter; a super-majority contest gets its single assertion"""
+    plur = variant[0] == "plurality"
+    cands = ["A", "B", "C", "D"]
+    if plur:
+        winners = S.choose("winners", [["A"], ["A", "B"], ["C", "A", "B"]])
+        con = mk_contest(I, id="con", name="con", cards=S.integer("cards", lo=1), candidates=cands, winner=list(winners), n_winners=len(winners),
+                         choice_function="PLURALITY", test=I.get("shangrla.core.NonnegMean", "NonnegMean.alpha_mart"))
+    else:
+        winners = ["A"]
+        f = S.real("share_to_win", lo_strict=0, hi_strict=1)
+        con = mk_contest(I, id="con", name="con", cards=S.integer("cards", lo=1), candidates=cands, winner=["A"], share_to_win=f,
+                         choice_function="SUPERMAJORITY", test=I.get("shangrla.core.NonnegMean", "NonnegMean.alpha_mart"))
+    fn = I.get(MOD, "Assertion.make_all_assertions")
+    _, exc = guard(S, I, lambda: I.call(fn, [{"key of con": con}], {}))
+    if exc:
+        return
+    asns = con.attrs.get("assertions")
+    losers = [x for x in cands if x not in winners]
+    if plur:
+        want = {f"{w} v {l}" for w in winners for l in losers}
+        S.holds("exactly one assertion per (winner, loser) pair; winners are never losers", isinstance(asns, dict) and set(asns.keys()) == want)
+        if not isinstance(asns, dict) or set(asns.keys()) != want:
+            return
+        card = rec_card(S, "card", sym_cvr(I, "card", {"con": cands}))
+        for w in winners:
+            for l in losers:
+                a = asns[f"{w} v {l}"].attrs["assorter"]
+                v, exc = guard(S, I, lambda: I.call(a.attrs["assort"], [card], {}))
+                if exc:
+                    return
+                S.eq(f"[{w} v {l}] assort(card) = (w - l + 1)/2",
+                     v, xdiv_np(xadd(xsub(b2x(card_vote(card, "con", w)), b2x(card_vote(card, "con", l))), ONE), XR.const(2)))
+    else:
+        S.holds("the super-majority contest gets its one assertion", isinstance(asns, dict) and set(asns.keys()) == {"A v ALL_OTHERS"})
+        if isinstance(asns, dict) and "A v ALL_OTHERS" in asns:
+            S.eq("its bound is 1/(2 share_to_win)", asns["A v ALL_OTHERS"].attrs["assorter"].attrs["upper_bound"], xdiv_np(ONE, xmul(XR.const(2), f)))
+
+
+@script(["C06", "C02"], "Assertion.set_all_margins_from_cvrs/post (bounded: 2 contests x 2 assertions; symbolic margins and bounds)")
+def set_all_margins_post(S, I, variant):
+    """every assertion gets its own margin and its test the bound that goes with THAT margin: the assorter's bound for polling,
+    2/(2 - v/u_assorter) for comparison audits; the smallest margin is returned"""
+    c = ctx()
+    Asn = I.get(MOD, "Assertion")
+    NM = I.get("shangrla.core.NonnegMean", "NonnegMean")
+    contests, specs = {}, []
+    for ci in range(2):
+        atype = S.choose(f"audit_type_{ci}", ["POLLING", "CARD_COMPARISON", "ONEAUDIT"])
+        con = mk_contest(I, id=f"c{ci}", cards=10, candidates=["A", "B"], winner=["A"], audit_type=atype)
+        asns = {}
+        for ai in range(2):
+            u_a = S.real(f"u_assorter_{ci}{ai}", lo=Fraction(1, 2))
+            v = S.real(f"margin_{ci}{ai}", lo_strict=0)
+            c.assume(xcmp("<=", v, xsub(xmul(XR.const(2), u_a), ONE)))
+            assorter = abstract_assorter(S, I, con, u_a, [])
+            testobj = Obj(NM, {"u": S.real(f"stale_u_{ci}{ai}", lo_strict=0)})
+            asn = Obj(Asn, {"contest": con, "assorter": assorter, "test": testobj, "margin": S.real(f"old_margin_{ci}{ai}"), "winner": "A", "loser": "B"})
+            asn.attrs["set_margin_from_cvrs"] = Builtin("abstract_set_margin", (lambda asn, v: (lambda I_, a_, k: asn.attrs.__setitem__("margin", v)))(asn, v))
+            asns[f"a{ai}"] = asn
+            specs.append((con, asn, u_a, v, atype))
+        con.attrs["assertions"] = asns
+        contests[f"key of c{ci}"] = con
+    audit = Obj(I.get(MOD, "Audit"), {})
+    r, exc = guard(S, I, lambda: I.call(I.get(MOD, "Assertion.set_all_margins_from_cvrs"), [], {"audit": audit, "contests": contests, "cvr_list": []}))
+    if exc:
+        return
+    mn = None
+    for con, asn, u_a, v, atype in specs:
+        exp_u = u_a if atype == "POLLING" else xdiv_np(XR.const(2), xsub(XR.const(2), xdiv_np(v, u_a)))
+        S.eq(f"[{con.attrs['id']}] the test's bound goes with the assertion's own margin", xr(asn.attrs["test"].attrs["u"]), exp_u)
+        mn = v if mn is None else xmin_py(mn, v) if False else xite(xcmp("<", v, mn), v, mn)
+    for ci in range(2):
+        con = contests[f"key of c{ci}"]
+        m = con.attrs.get("margins")
+        S.holds(f"[c{ci}] the contest's table of margins holds each assertion's margin",
+                isinstance(m, dict) and set(m.keys()) == {"a0", "a1"} and
+                band(*[xsame(xr(m[k]), xr(con.attrs["assertions"][k].attrs["margin"])) for k in ("a0", "a1")]))
+    S.eq("the smallest margin is returned", xr(I.norm_scalar(r)), mn)
+
+
+@script(["C02"], "Contest.find_margins_from_tally/post (margins follow the CURRENT tally; bounded: 2 assertions)")
+def find_margins_from_tally_post(S, I, variant):
+    c = ctx()
+    cards = S.integer("cards", lo=1)
+    tw, t1, t2 = (S.integer(n_, lo=0, hi=cards) for n_ in ("tally_W", "tally_L1", "tally_L2"))
+    con = mk_contest(I, id="con", name="con", cards=cards, candidates=["W", "L1", "L2"], winner=["W"], tally={"W": tw, "L1": t1, "L2": t2})
+    r, exc = guard(S, I, lambda: I.call(I.get(MOD, "Assertion.make_plurality_assertions"), [], {"contest": con, "winner": ["W"], "loser": ["L1", "L2"]}))
+    if exc:
+        return
+    con.attrs["assertions"] = r
+    for k in r:                 # margins left over from an earlier tally
+        r[k].attrs["margin"] = S.real(f"stale_margin[{k}]")
+    _, exc = guard(S, I, lambda: I.call(I.getattr(con, "find_margins_from_tally"), [], {}))
+    if exc:
+        return
+    for l, tl in (("L1", t1), ("L2", t2)):
+        S.eq(f"[W v {l}] margin = (tally_W - tally_{l})/cards for the tally the contest holds now",
+             xr(r[f"W v {l}"].attrs["margin"]), xdiv_np(XR.const(mkint(isub(tw, tl))), XR.const(cards)))
